@@ -764,6 +764,20 @@ func (fr *Frame) execInstr(instr ssa.Instruction, st *State) *State {
 			fr.regs[x] = rv
 		}
 	case *ssa.Defer:
+		if fr.isTop && ex.fc != nil && ex.fc.Opts["defers"] == "skipped" {
+			// the deferred calls of this function are not executed (declared in its contract);
+			// call-site assertions still see them being registered
+			var args []Val
+			for _, a := range x.Call.Args {
+				args = append(args, fr.val(a))
+			}
+			if x.Call.IsInvoke() {
+				args = append([]Val{fr.val(x.Call.Value)}, args...)
+			}
+			ex.atCallClauses(fr, st, &x.Call, args, x.Pos())
+			ex.cx.note("deferred calls of %s are not executed (opt defers skipped): %s", fr.fn.Name(), calleeName(&x.Call))
+			break
+		}
 		d := &deferRec{fn: fr.val(x.Call.Value), call: &x.Call}
 		for _, a := range x.Call.Args {
 			d.args = append(d.args, fr.val(a))
